@@ -5,6 +5,7 @@ import (
 	"go/ast"
 	"go/token"
 	"go/types"
+	"os"
 	"strings"
 )
 
@@ -690,8 +691,10 @@ func (e *Engine) modifiedIn(nodes ...ast.Node) *modset {
 				// locals declared inside are fresh each iteration: nothing to havoc
 			case *ast.CallExpr:
 				e.callMods(s, m)
-			case *ast.GoStmt, *ast.SendStmt:
+			case *ast.GoStmt:
 				m.all = true
+			case *ast.SendStmt:
+				// a send hands a value to another goroutine; sequential model: no effect on tracked memory (listed under abstracted)
 			case *ast.UnaryExpr:
 				if s.Op == token.AND {
 					m.alloc = true
@@ -808,6 +811,26 @@ func (e *Engine) callMods(c *ast.CallExpr, m *modset) {
 	if _, ok := pureStubs[full]; ok {
 		return
 	}
+	if fn.Pkg() != nil && e.w.Pkgs[fn.Pkg().Path()] == nil && purePkgs[fn.Pkg().Path()] {
+		if sliceWriters[full] {
+			for _, a := range c.Args {
+				if sl, ok := types.Unalias(e.typeOf(a)).Underlying().(*types.Slice); ok {
+					m.heaps[elemHeapName(sl.Elem())] = true
+				}
+			}
+		}
+		m.alloc = true
+		return
+	}
+	switch full {
+	case "sort.Strings", "sort.Slice", "sort.Sort", "sort.Ints", "sort.SliceStable", "sort.Stable", "slices.Sort", "slices.SortFunc":
+		if len(c.Args) > 0 {
+			if sl, ok := types.Unalias(e.typeOf(c.Args[0])).Underlying().(*types.Slice); ok {
+				m.heaps[elemHeapName(sl.Elem())] = true
+				return
+			}
+		}
+	}
 	if ct := e.contractFor(fn); ct != nil {
 		if ct.Pure {
 			return
@@ -825,24 +848,48 @@ func (e *Engine) callMods(c *ast.CallExpr, m *modset) {
 			}
 			return
 		}
-		// contract without modifies: verified to modify nothing (frame obligation)
+		// contract without modifies: the callee's syntactic write set
+		m.union(e.calleeMods(fn))
 		return
 	}
-	if decl, pk := e.declOf(fn); decl != nil && e.inlinable(decl) {
-		sub := (&Engine{w: e.w, pk: pk, c: e.c, boxed: e.boxed, bv: e.bv}).modifiedInShallow(e, decl)
-		m.union(sub)
+	if decl, _ := e.declOf(fn); decl != nil && e.inlinable(decl) {
+		m.union(e.calleeMods(fn))
 		return
 	}
 	m.all = true
 }
 
-func (e *Engine) modifiedInShallow(parent *Engine, decl *ast.FuncDecl) *modset {
-	// analyse the callee body with the callee package's type info
-	tmp := *parent
-	tmp.pk = e.pk
+var modCache = map[string]*modset{}
+var modInProgress = map[string]bool{}
+
+// calleeMods: syntactic over-approximation of the heaps written by fn (transitively).
+func (e *Engine) calleeMods(fn *types.Func) *modset {
+	key := fn.FullName()
+	if m, ok := modCache[key]; ok {
+		return m
+	}
+	all := &modset{vars: map[types.Object]bool{}, heaps: map[string]bool{}, ghost: map[types.Object]bool{}, all: true}
+	if modInProgress[key] {
+		return all // recursion: conservative
+	}
+	decl, pk := e.declOf(fn)
+	if decl == nil {
+		return all
+	}
+	modInProgress[key] = true
+	tmp := *e
+	tmp.pk = pk
 	sub := tmp.modifiedIn(decl.Body)
-	// callee locals are irrelevant to the caller
+	delete(modInProgress, key)
 	sub.vars = map[types.Object]bool{}
+	modCache[key] = sub
+	if os.Getenv("GOVC_DEBUG_MODS") != "" {
+		var hs []string
+		for h := range sub.heaps {
+			hs = append(hs, h)
+		}
+		fmt.Fprintf(os.Stderr, "mods(%s): all=%v alloc=%v heaps=%v\n", key, sub.all, sub.alloc, hs)
+	}
 	return sub
 }
 
